@@ -100,7 +100,9 @@ def r08_2(ctx):
     tested = set()
     for pc in _nfq.feasible(pcs):
         for g in pc["guards"]:
-            m = re.fullmatch(r"(.*\.as_bytes\(\)\.get\(.*\)\.0) matches ([0-9|]+)(#\d+)?", g)
+            m = re.fullmatch(r"(.*\.as_bytes\(\)\.get\(.*\)\.0|item) matches ([0-9|]+)(#\d+)?", g)
+            if m and m.group(1) == "item" and not any(x.startswith("loop-begin for _ in") and ".as_bytes()" in x for x in _nfq.texts(pc)):
+                m = None
             if m:
                 tested |= {int(x) for x in m.group(2).split("|")}
     stop_bytes = {ord(c) for c in STOP}
